@@ -15,19 +15,20 @@ Section TextR.
   Variable rsymt : nat -> pystr.           (* the bond symbol text written before the OPENING marker of a ring *)
 
   Definition marks := list (nat * nat).
-  (** the `for ring_idx in ring_idxs:` loop at one node: new table, text, markers written *)
-  Fixpoint ring_pure (mk : marks) (ris : list nat) : marks * pystr * list nat :=
+  (** the `for ring_idx in ring_idxs:` loop at one node: new table, text, markers written; [a] is the flag
+      after_pct (a marker of this node was already written in the % form) *)
+  Fixpoint ring_pure (a : bool) (mk : marks) (ris : list nat) : marks * pystr * list nat :=
     match ris with
     | [] => (mk, [], [])
     | ri :: r =>
         match mk_get ri mk with
         | None =>
             let m := get_ring_marker (map snd mk) in
-            let '(mk2, t2, tr2) := ring_pure (mk ++ [(ri, m)]) r in
-            (mk2, rsymt ri ++ marker_text m ++ t2, m :: tr2)
+            let '(mk2, t2, tr2) := ring_pure (a || (10 <=? m)%nat) (mk ++ [(ri, m)]) r in
+            (mk2, rsymt ri ++ marker_text a m ++ t2, m :: tr2)
         | Some m =>
-            let '(mk2, t2, tr2) := ring_pure (mk_del ri mk) r in
-            (mk2, marker_text m ++ t2, m :: tr2)
+            let '(mk2, t2, tr2) := ring_pure (a || (10 <=? m)%nat) (mk_del ri mk) r in
+            (mk2, marker_text a m ++ t2, m :: tr2)
         end
     end.
   Definition trace_entry (k : Z) (trc : list nat) : list (Z * list nat) := match trc with [] => [] | _ => [(k, trc)] end.
@@ -37,7 +38,7 @@ Section TextR.
     match t with
     | RNode k cs =>
         let d1 := if isb then Datatypes.S d else d in
-        let '(mk1, rt, trc) := ring_pure mk (rlist k) in
+        let '(mk1, rt, trc) := ring_pure false mk (rlist k) in
         match cs with
         | [] => (whead sf ntext stext p isb k ++ rt ++ (if (0 <? d1)%nat then S ")" else []), mk1, trace_entry k trc)
         | c1 :: bs =>
